@@ -1,19 +1,26 @@
 """C09 — interpolation results do not depend on the history of earlier calls.
 
 Case grammar (one line):
-  h1 <N> x_1..x_N <N> y_1..y_N <nops> op op ...       one Interpolation object, a history of calls
-  h2 <Nx> xs <Ny> ys f_11 f_12 .. f_NxNy <nops> op .. one Interpolation_2D object (row-major table)
+  h1 <ctor> <N> x_1..x_N <N> y_1..y_N <nops> op op ...       one Interpolation object, a history of calls
+  h2 <ctor> <Nx> xs <Ny> ys f_11 f_12 .. f_NxNy <nops> op .. one Interpolation_2D object (row-major table)
+<ctor> = <overload><argc> dim_1 .. dim_argc: the constructor overload every object of the case (used, fresh, prefactor-free)
+  is built with and the unit arguments the call passes explicitly, the others being left to the default arguments:
+  v = Interpolation(xs, ys[, x_dim[, f_dim]])            r = Interpolation(rows (x,f)[, x_dim[, f_dim]])
+  g = Interpolation_2D(xs, ys, f[, x_dim[, y_dim[, f_dim]]])   t = Interpolation_2D(rows (x,y,f)[, x_dim[, y_dim[, f_dim]]])
+  The tables of the case are the RAW ones; all arguments of the history refer to the table after the unit scaling.
 ops (1-D) and the tokens each one prints:
   L x        Locate                -> j jf          index on the used object, index on a fresh object
-  I x        Interpolate           -> v vf vb       used, fresh with the same prefactor, fresh with prefactor 1
+  I x / O x  Interpolate / operator() -> v vf vb    used, fresh with the same prefactor (Set_Prefactor on a new object), new object
   D x k      Derivative(x,k)       -> v vf vb
-  G a b      Integrate(a,b)        -> v vf
-  m a b / M a b  Local_Minimum / Local_Maximum -> v vf
-  gm / gM    Global_Minimum / Global_Maximum   -> v vf
+  d x        Derivative(x) (default argument) -> v vf vb
+  G a b      Integrate(a,b)        -> v vf vb
+  m a b / M a b  Local_Minimum / Local_Maximum -> v vf bmin bmax    (Local_Minimum and Local_Maximum of new objects)
+  gm / gM    Global_Minimum / Global_Maximum   -> v vf bmin bmax
+  Q          the public member domain          -> d0 d1   (2-D: x0 x1 y0 y1)
   P f / U f  Set_Prefactor / Multiply          -> pf  (the prefactor the calls so far should have left)
   C / A      continue on a copy-constructed / assigned copy (the original is kept)   -> nothing
   R          return to the object the last copy was taken from                       -> nothing
-ops (2-D): I x y -> v vf;  gm gM P U C A R as above.
+ops (2-D): I x y / O x y -> v vf vb;  gm gM Q P U C A R as above.
 A call that ends the process makes the whole line EXIT.
 The model prints `_` for the 1-D values (their evaluation is a parameter of the model); `_` is not compared."""
 import bisect, math, struct
@@ -82,17 +89,22 @@ def ref_index(xs, x):
 
 def locates_of(op, args):
     """arguments of the Locate calls a 1-D operation makes, in order; None = the operation exits before any Locate"""
-    if op in ("L", "I"): return [args[0]]
+    if op in ("L", "I", "O", "d"): return [args[0]]
     if op == "D": return [args[0], args[0]] if args[1] == 0 else [args[0]]
     if op == "G": return [args[1], args[0]] if args[0] > args[1] else [args[0], args[1]]
     if op in ("m", "M"): return None if args[1] < args[0] else [args[0], args[1], args[0], args[1]]
     return []
 
 
-ARITY = {"L": 1, "I": 1, "D": 2, "G": 2, "m": 2, "M": 2, "gm": 0, "gM": 0, "P": 1, "U": 1, "C": 0, "A": 0, "R": 0}
-NOUT = {"L": 2, "I": 3, "D": 3, "G": 2, "m": 2, "M": 2, "gm": 2, "gM": 2, "P": 1, "U": 1, "C": 0, "A": 0, "R": 0}
-ARITY2 = dict(ARITY); ARITY2["I"] = 2
-NOUT2 = dict(NOUT); NOUT2["I"] = 2
+ARITY = {"L": 1, "I": 1, "O": 1, "D": 2, "d": 1, "G": 2, "m": 2, "M": 2, "gm": 0, "gM": 0, "Q": 0, "P": 1, "U": 1, "C": 0, "A": 0, "R": 0}
+NOUT = {"L": 2, "I": 3, "O": 3, "D": 3, "d": 3, "G": 3, "m": 4, "M": 4, "gm": 4, "gM": 4, "Q": 2, "P": 1, "U": 1, "C": 0, "A": 0, "R": 0}
+ARITY2 = dict(ARITY); ARITY2["I"] = 2; ARITY2["O"] = 2
+NOUT2 = dict(NOUT); NOUT2["Q"] = 4
+
+
+def scaled(dim, l):
+    """if(dim > 0.0) for(...) values[i] *= dim;   (one IEEE multiplication per entry, as in the constructor)"""
+    return [v * dim for v in l] if dim > 0.0 else list(l)
 
 
 def parse_case(line):
@@ -100,9 +112,15 @@ def parse_case(line):
     def fl():
         nonlocal p
         n = int(t[p]); v = [tokf(a) for a in t[p + 1:p + 1 + n]]; p += 1 + n; return v
+    two = kind == "h2"
+    ck = t[p]; p += 1; argc = int(ck[1]); dims = [-1.0] * (3 if two else 2)
+    for k in range(argc): dims[k] = tokf(t[p]); p += 1
     xs = fl(); ys = fl(); tab = None
-    if kind == "h2":
+    xs = scaled(dims[0], xs)
+    if two:
         tab = [tokf(a) for a in t[p:p + len(xs) * len(ys)]]; p += len(xs) * len(ys)
+        ys = scaled(dims[1], ys); tab = scaled(dims[2], tab)
+    else: ys = scaled(dims[1], ys)
     nops = int(t[p]); p += 1
     ar = ARITY if kind in ("h1", "t1") else ARITY2
     ops = []
@@ -138,7 +156,7 @@ def simulate(kind, xs, ys, ops):
     if kind == "h2":
         cx, cy = Cache(xs), Cache(ys); st = []
         for o, a in ops:
-            if o == "I":
+            if o in ("I", "O"):
                 if cx.locate(a[0], kinds) is None or cy.locate(a[1], kinds) is None: return kinds, True
             elif o in ("C", "A"): st.append((cx.copy(), cy.copy()))
             elif o == "R" and st: cx, cy = st.pop()
@@ -207,10 +225,21 @@ def edge_point(rng, xs, allow_exit=False):
     return x
 
 
-def gen_history(rng, xs, nops, with_exit):
+PF_SET = [2.0, -1.5, 0.5, 1e3, -1.0, 1.0, 2.0, 3.0, 0.25, -4.0, 1e-20, 1e20, 7.0, 0.1, -0.3, 1.0, 1.0, 1.5, 0.0, 1e-3]
+PF_MUL = [2.0, -1.0, 0.5, 3.0, 1.0, 10.0, -0.1, 1e-6, 1e6, 4.0]
+
+
+def prefactor_op(rng):
+    if rng.random() < 0.5: return ("P", [rng.choice(PF_SET + [rng.uniform(-3, 3)] * 4)])
+    return ("U", [rng.choice(PF_MUL + [rng.uniform(0.1, 2)] * 3)])
+
+
+def gen_history(rng, xs, nops, with_exit, extra_pu=0.0):
+    """xs: the table AFTER the unit scaling.  extra_pu: additional rate of Set_Prefactor / Multiply calls"""
     n = len(xs); ops = []; cur = rng.randrange(n - 1)
     def arg(k): return point_in(rng, xs, k)
     while len(ops) < nops:
+        if extra_pu and rng.random() < extra_pu: ops.append(prefactor_op(rng)); continue
         mode = rng.random()
         if mode < 0.22: targets = [rng.randrange(n - 1)]                                   # far jump
         elif mode < 0.50:                                                                   # short steps upwards / same segment
@@ -223,16 +252,18 @@ def gen_history(rng, xs, nops, with_exit):
         elif mode < 0.82:                                                                   # correlated pair, then a long hunt
             k1 = min(n - 2, cur + rng.randint(0, 3)); targets = [k1, rng.choice([0, n - 2, rng.randrange(n - 1)])]
         elif mode < 0.90: targets = [None]                                                  # domain ends / tolerated zone
-        elif mode < 0.94: ops.append(rng.choice([("P", [rng.choice([2.0, -1.5, 0.5, 1e3, -1.0, 1.0, rng.uniform(-3, 3)])]), ("U", [rng.choice([2.0, -1.0, 0.5, 3.0, rng.uniform(0.1, 2)])])])); continue
+        elif mode < 0.94: ops.append(prefactor_op(rng)); continue
         elif mode < 0.98: ops.append((rng.choice(["C", "A", "C", "R"]), [])); continue
-        else: ops.append((rng.choice(["gm", "gM"]), [])); continue
+        else: ops.append((rng.choice(["gm", "gM", "gm", "gM", "Q"]), [])); continue
         for k in targets:
             x = edge_point(rng, xs) if k is None else arg(k)
             j = ref_index(xs, x); cur = j if j is not None else cur
             r = rng.random()
             if r < 0.60: ops.append(("L", [x]))
-            elif r < 0.75: ops.append(("I", [x]))
-            elif r < 0.85: ops.append(("D", [x, rng.choice([0, 1, 1, 2, 3, 4])]))
+            elif r < 0.75: ops.append((rng.choice(["I", "I", "I", "O"]), [x]))
+            elif r < 0.85:
+                if rng.random() < 0.2: ops.append(("d", [x]))
+                else: ops.append(("D", [x, rng.choice([0, 1, 1, 2, 3, 4])]))
             else:
                 # ranges over many segments only on moderate tables (the model's list-based spline evaluation is quadratic in the span)
                 far = rng.randrange(n - 1) if n <= 300 else min(n - 2, max(0, cur + rng.randint(-40, 40)))
@@ -249,7 +280,7 @@ def gen_history(rng, xs, nops, with_exit):
         if r < 0.7:
             x = edge_point(rng, xs, allow_exit=True)
             while zone(xs, x) != "exit": x = edge_point(rng, xs, allow_exit=True)
-            ops.append((rng.choice(["L", "I", "L"]), [x]))
+            ops.append((rng.choice(["L", "I", "L", "O", "d"]), [x]))
         else:
             a = point_in(rng, xs, rng.randrange(n - 1)); b = point_in(rng, xs, rng.randrange(n - 1))
             if a == b: b = math.nextafter(a, math.inf)
@@ -262,31 +293,91 @@ def op_text(o, a):
     return " ".join([o] + [hx(v) for v in a])
 
 
-def case_1d(rng, n, nops, with_exit=False, tags=()):
-    xs, ys = make_table(rng, n)
-    ops = gen_history(rng, xs, nops, with_exit)
-    line = f"h1 {flist(xs)} {flist(ys)} {len(ops)} " + " ".join(op_text(o, a) for o, a in ops)
-    return Case(line, ("1d",) + tuple(tags) + (("exit-last",) if with_exit else ()))
+# ---- constructors: overload, number of explicit unit arguments, unit arguments
+# unit conversion factors of the kind the library's callers pass (natural units <-> cm, g, s, K, ...) and plain scales
+UNITS_PHYS = [1.973269804e-14, 5.067730716e13, 1.782661921e-27, 5.609588604e23, 1.160451812e13, 8.617333262e-5,
+              2.99792458e10, 6.582119569e-25, 1e-36, 1e3, 1e-9, 1e6, 3.893793721e-28]
 
 
-def case_2d(rng, nx, ny, nops, with_exit=False):
-    xs, _ = make_table(rng, nx); ys, _ = make_table(rng, ny)
-    tab = [math.sin(0.3 * i) * math.cos(0.2 * j) + 0.01 * i * j + rng.uniform(-0.1, 0.1) for i in range(len(xs)) for j in range(len(ys))]
+def unit_arg(rng, wide):
+    """one unit argument: inactive values (<= 0: the default -1.0, zeros, negatives), 1.0, exact and inexact factors over many decades"""
+    r = rng.random()
+    if r < 0.10: return -1.0
+    if r < 0.18: return rng.choice([0.0, -0.0, -2.5, -1e-300, -1e300])
+    if r < 0.26: return 1.0
+    if r < 0.40: return rng.choice([2.0, 0.5, 1024.0, 2.0 ** -30, 3.0, 10.0, 0.1])
+    if r < 0.65: return 10 ** rng.uniform(-3, 3)
+    if r < 0.85: return rng.choice(UNITS_PHYS)
+    return 10 ** rng.uniform(-wide, wide)
+
+
+def grid_ok(xs):
+    """the scaled abscissae are still a table of the property: finite, strictly increasing, end intervals whose one per cent is a normal number"""
+    if not all(math.isfinite(v) for v in xs): return False
+    if any(b <= a for a, b in zip(xs, xs[1:])): return False
+    return 1e-2 * (xs[1] - xs[0]) > 1e-290 and 1e-2 * (xs[-1] - xs[-2]) > 1e-290 and max(abs(xs[0]), abs(xs[-1])) < 1e200
+
+
+def values_ok(xs, ys):
+    """keeps the Steffen coefficients and antiderivatives inside the double range (a ~ y/h^3, stem ~ y*x), so that values are numbers"""
+    ym = max(abs(v) for v in ys)
+    if not math.isfinite(ym) or ym > 1e150: return False
+    hmin = min(b - a for a, b in zip(xs, xs[1:])); xm = max(abs(xs[0]), abs(xs[-1]))
+    return ym / hmin ** 3 < 1e250 and ym * xm < 1e250 and (ym == 0.0 or ym * hmin > 1e-250)
+
+
+def pick_ctor(rng, kinds, ndims, ok, units=None):
+    """returns (ctor text, dims): overload from `kinds`, argc explicit unit arguments; ok(dims) validates the scaled tables.
+    units: None = mostly the plain call; 'all' = every unit argument given"""
+    for attempt in range(8):
+        kind = rng.choice(kinds)
+        if units == "all": argc = ndims
+        elif units == "some": argc = rng.randint(1, ndims)
+        else: argc = rng.choice([0] * 5 + list(range(1, ndims + 1)))
+        wide = 60 if attempt < 3 else 6
+        given = [unit_arg(rng, wide) for _ in range(argc)]
+        dims = given + [-1.0] * (ndims - argc)
+        if ok(dims): return f"{kind}{argc}" + "".join(" " + hx(v) for v in given), dims
+    return f"{kinds[0]}0", [-1.0] * ndims
+
+
+def case_1d(rng, n, nops, with_exit=False, tags=(), units=None, extra_pu=0.0):
+    xs0, ys0 = make_table(rng, n)
+    ctor, dims = pick_ctor(rng, ["v", "v", "r"], 2, lambda d: grid_ok(scaled(d[0], xs0)) and values_ok(scaled(d[0], xs0), scaled(d[1], ys0)), units)
+    xs = scaled(dims[0], xs0)
+    ops = gen_history(rng, xs, nops, with_exit, extra_pu)
+    line = f"h1 {ctor} {flist(xs0)} {flist(ys0)} {len(ops)} " + " ".join(op_text(o, a) for o, a in ops)
+    tg = ("1d",) + tuple(tags) + (("exit-last",) if with_exit else ())
+    if dims[0] > 0 or dims[1] > 0: tg += ("units",)
+    return Case(line, tg)
+
+
+def case_2d(rng, nx, ny, nops, with_exit=False, units=None, extra_pu=0.04):
+    xs0, _ = make_table(rng, nx); ys0, _ = make_table(rng, ny)
+    tab = [math.sin(0.3 * i) * math.cos(0.2 * j) + 0.01 * i * j + rng.uniform(-0.1, 0.1) for i in range(len(xs0)) for j in range(len(ys0))]
+    kinds = ["g", "g", "t"] if len(xs0) * len(ys0) <= 900 else ["g"]       # the model sorts the rows of the data table by insertion
+    def ok(d):
+        fm = max(abs(v) for v in scaled(d[2], tab))
+        return grid_ok(scaled(d[0], xs0)) and grid_ok(scaled(d[1], ys0)) and math.isfinite(fm) and fm < 1e150
+    ctor, dims = pick_ctor(rng, kinds, 3, ok, units)
+    xs = scaled(dims[0], xs0); ys = scaled(dims[1], ys0)
     hx_ = gen_history(rng, xs, nops, False); hy_ = gen_history(rng, ys, nops, False)
-    ax = [a[0] for o, a in hx_ if o in ("L", "I", "D", "G", "m", "M")]; ay = [a[0] for o, a in hy_ if o in ("L", "I", "D", "G", "m", "M")]
+    ax = [a[0] for o, a in hx_ if o in ("L", "I", "O", "D", "d", "G", "m", "M")]; ay = [a[0] for o, a in hy_ if o in ("L", "I", "O", "D", "d", "G", "m", "M")]
     ops = []
     for k in range(min(len(ax), len(ay))):
         r = rng.random()
-        if r < 0.05: ops.append((rng.choice(["P", "U"]), [rng.choice([2.0, -1.5, 0.5, rng.uniform(-3, 3)])]))
-        elif r < 0.09: ops.append((rng.choice(["C", "A", "R"]), []))
-        elif r < 0.10: ops.append((rng.choice(["gm", "gM"]), []))
-        ops.append(("I", [ax[k], ay[k]]))
+        if r < extra_pu + 0.01: ops.append(prefactor_op(rng))
+        elif r < extra_pu + 0.05: ops.append((rng.choice(["C", "A", "R"]), []))
+        elif r < extra_pu + 0.07: ops.append((rng.choice(["gm", "gM", "gm", "gM", "Q"]), []))
+        ops.append((rng.choice(["I", "I", "I", "O"]), [ax[k], ay[k]]))
     if with_exit:
         x = edge_point(rng, xs, allow_exit=True)
         while zone(xs, x) != "exit": x = edge_point(rng, xs, allow_exit=True)
         ops.append(("I", [x, ys[0]] if rng.random() < 0.5 else [xs[0], ys[-1] + 3 * (ys[-1] - ys[-2])]))
-    line = f"h2 {flist(xs)} {flist(ys)} " + " ".join(hx(v) for v in tab) + f" {len(ops)} " + " ".join(op_text(o, a) for o, a in ops)
-    return Case(line, ("2d",) + (("exit-last",) if with_exit else ()))
+    line = f"h2 {ctor} {flist(xs0)} {flist(ys0)} " + " ".join(hx(v) for v in tab) + f" {len(ops)} " + " ".join(op_text(o, a) for o, a in ops)
+    tg = ("2d",) + (("exit-last",) if with_exit else ())
+    if any(d > 0 for d in dims): tg += ("units",)
+    return Case(line, tg)
 
 
 def generate(rng, tier):
@@ -295,7 +386,7 @@ def generate(rng, tier):
     # a fixed regression: the history that returned the left segment at a knot before the canonicalisation fix
     xs = [float(i) for i in range(30)]; ys = [i * math.sin(0.7 * i) for i in range(30)]
     ops = [("L", [10.2]), ("L", [10.5]), ("L", [11.1]), ("L", [11.6]), ("L", [12.0]), ("D", [12.0, 2]), ("D", [12.0, 3]), ("I", [12.0]), ("G", [3.0, 12.0])]
-    cs.append(Case(f"h1 {flist(xs)} {flist(ys)} {len(ops)} " + " ".join(op_text(o, a) for o, a in ops), ("1d", "regression-knot")))
+    cs.append(Case(f"h1 v0 {flist(xs)} {flist(ys)} {len(ops)} " + " ".join(op_text(o, a) for o, a in ops), ("1d", "regression-knot")))
     # arguments that are NaN (outside the property's quantifier): Locate exits first thing, on used and fresh objects alike
     # (K-C09-1, fixed: it used to return the cached index after correlated calls). The NaN call comes after two correlated calls.
     for _ in range(12 if big else 4):
@@ -304,9 +395,14 @@ def generate(rng, tier):
         k = rng.randrange(n - 1); k2 = min(n - 2, k + rng.randint(0, 3))
         nan_op = rng.choice([("L", [math.nan]), ("D", [math.nan, 3]), ("I", [math.nan]), ("G", [math.nan, xs[1]]), ("m", [xs[0], math.nan])])
         ops += [("L", [point_in(rng, xs, k)]), ("L", [point_in(rng, xs, k2)]), nan_op]
-        cs.append(Case(f"h1 {flist(xs)} {flist(ys)} {len(ops)} " + " ".join(op_text(o, a) for o, a in ops), ("1d", "nan-argument")))
+        cs.append(Case(f"h1 v0 {flist(xs)} {flist(ys)} {len(ops)} " + " ".join(op_text(o, a) for o, a in ops), ("1d", "nan-argument")))
+    # every constructor overload with unit arguments, histories rich in Set_Prefactor / Multiply and value queries of every kind
     sizes_small = [3, 3, 4, 5, 6, 8, 11, 12, 16, 23, 40, 64]
-    for _ in range(1200 if big else 260):
+    for _ in range(400 if big else 60):
+        cs.append(case_1d(rng, rng.choice(sizes_small), rng.choice([8, 15, 25, 40]), units=rng.choice(["all", "all", "some"]), extra_pu=0.12, tags=("ctor-units",)))
+    for _ in range(150 if big else 24):
+        cs.append(case_2d(rng, rng.choice([3, 4, 7, 20]), rng.choice([3, 5, 9, 25]), rng.choice([10, 30, 60]), units=rng.choice(["all", "some"]), extra_pu=0.12))
+    for _ in range(1200 if big else 230):
         n = rng.choice(sizes_small + [100, 257, rng.randint(3, 300)])
         nops = rng.choice([10, 15, 25, 40, 80, rng.randint(10, 200)])
         cs.append(case_1d(rng, n, nops, with_exit=rng.random() < 0.08))
@@ -316,7 +412,7 @@ def generate(rng, tier):
         cs.append(case_1d(rng, n, nops, tags=("large",)))
     for _ in range(30 if big else 3):
         cs.append(case_1d(rng, rng.choice([3, 50, 2000]), rng.choice([3000, 5000]), tags=("long",)))
-    for _ in range(400 if big else 70):
+    for _ in range(400 if big else 60):
         cs.append(case_2d(rng, rng.choice([3, 4, 7, 20, 60]), rng.choice([3, 5, 9, 33, 80]), rng.choice([10, 30, 100, 300]), with_exit=rng.random() < 0.06))
     for _ in range(20 if big else 2):
         cs.append(case_2d(rng, rng.choice([200, 1000]), rng.choice([150, 400]), rng.choice([500, 2000])))
@@ -375,6 +471,16 @@ def nontrivial(c, io):
     return "B" in kinds and "U" in kinds and "D" in kinds
 
 
+EPS = 2.0 ** -53
+
+
+def _scaled_extreme(pf, lo, hi, want_max):
+    """the extremum of {fl(pf * s)} over a set of values s with minimum lo and maximum hi: rounding is monotone, so it is
+    fl(pf * lo) or fl(pf * hi), whichever is smaller (larger) — exactly what "all outputs change by the factor" means for an extremum"""
+    a, b = pf * lo, pf * hi
+    return max(a, b) if want_max else min(a, b)
+
+
 def predicates(c, io):
     """S4: the clauses of the property evaluated on the implementation's output alone"""
     out = []
@@ -386,9 +492,16 @@ def predicates(c, io):
         return out
     if exits:
         return [(f"{kind}:no-exit", "a call with an argument outside the tolerated margin (or a reversed range) returned instead of ending the process")]
-    t = io.split(); nout = NOUT if kind == "h1" else NOUT2
+    t = io.split(); two = kind == "h2"; nout = NOUT2 if two else NOUT
     need = sum(nout[o] for o, a in ops)
     if len(t) != need: return [(f"{kind}:shape", f"{len(t)} output tokens, expected {need}")]
+    sfx = "2" if two else ""
+    fvals = tab if two else ys                       # the function values after the unit scaling
+    fmin, fmax = min(fvals), max(fvals)
+    ny = len(ys)
+    ymax = max(abs(v) for v in fvals)
+    # |antiderivative value on a segment| <= ymax * (|x| + 5.5 * 2 * h) (Steffen: |a h^3| <= 6|dy|, |b h^2| <= 9|dy|, |c h| <= 2|dy|), 1 % beyond the ends included
+    stem = 0.0 if two else ymax * (max(abs(xs[0]), abs(xs[-1])) + 13.0 * (xs[-1] - xs[0]))
     p = 0; pf = 1.0; st = []
     for n_op, (o, a) in enumerate(ops):
         v = t[p:p + nout[o]]; p += nout[o]
@@ -399,19 +512,55 @@ def predicates(c, io):
         elif o in ("P", "U"):
             pf = a[0] if o == "P" else pf * a[0]
             if not same_bits(tokf(v[0]), pf): out.append((f"{kind}:harness-prefactor", f"{where}: harness tracks {v[0]}, expected {pf!r}"))
-        elif kind == "h1" and o == "L":
+        elif o == "Q":
+            d = [tokf(w) for w in v]; exp = [xs[0], xs[-1]] + ([ys[0], ys[-1]] if two else [])
+            if any(not same_bits(x, y) for x, y in zip(d, exp)):
+                out.append((f"Q{sfx}:domain", f"{where}: domain is {d!r}, the ends of the (unit-scaled) abscissae are {exp!r}"))
+        elif not two and o == "L":
             j, jf = int(v[0]), int(v[1]); jr = ref_index(xs, a[0])
             if j != jf: out.append(("L:history", f"{where}: Locate returns {j} on the used object and {jf} on a fresh one"))
             if jf != jr: out.append(("L:canonical", f"{where}: a fresh object locates segment {jf}, the segment of x is {jr}"))
             elif j != jr: out.append(("L:canonical-used", f"{where}: the used object locates segment {j}, the segment of x is {jr}"))
         else:
-            if v[0] != v[1] and not (tokf(v[0]) is not None and tokf(v[1]) is not None and same_bits(tokf(v[0]), tokf(v[1]))):
-                out.append((f"{o}{'2' if kind == 'h2' else ''}:history", f"{where}: the used object returns {v[0]}, a fresh object with the same prefactor {v[1]}"))
-            if kind == "h1" and o in ("I", "D"):
-                x, xb = tokf(v[0]), tokf(v[2])
+            f = [tokf(w) for w in v]
+            if any(x is None for x in f):
+                out.append((f"{o}{sfx}:shape", f"{where}: output {v} is not numeric")); break
+            x, xf = f[0], f[1]
+            if not same_bits(x, xf):
+                out.append((f"{o}{sfx}:history", f"{where}: the used object returns {v[0]}, a fresh object with the same prefactor {v[1]}"))
+            if o in ("I", "O", "D", "d"):
+                # one multiplication by the prefactor: bit-exact
+                xb = f[2]
                 exp = pf * xb if not (o == "D" and a[1] > 3) else 0.0
                 if not (x == exp or (math.isnan(x) and math.isnan(exp))):
-                    out.append((f"{o}:prefactor", f"{where}: value {x!r} is not prefactor {pf!r} times the prefactor-free value {xb!r}"))
+                    out.append((f"{o}{sfx}:prefactor", f"{where}: value {x!r} is not prefactor {pf!r} times the value {xb!r} of a new object"))
+                # at a tabulated abscissa (not the last) a new object returns the tabulated value itself (all other terms are zeros)
+                if not math.isnan(xb) and (o in ("I", "O") or (o == "D" and a[1] == 0)):
+                    if not two:
+                        k = bisect.bisect_left(xs, a[0])
+                        if k < len(xs) - 1 and xs[k] == a[0] and xb != ys[k]:
+                            out.append((f"{o}:knot-value", f"{where}: a new object returns {xb!r} at the tabulated abscissa #{k}, the (unit-scaled) tabulated value is {ys[k]!r}"))
+                    else:
+                        k = bisect.bisect_left(xs, a[0]); l = bisect.bisect_left(ys, a[1])
+                        if k < len(xs) - 1 and l < ny - 1 and xs[k] == a[0] and ys[l] == a[1]:
+                            cell = [tab[k * ny + l], tab[(k + 1) * ny + l], tab[(k + 1) * ny + l + 1], tab[k * ny + l + 1]]
+                            if all(math.isfinite(w) for w in cell) and xb != cell[0]:
+                                out.append((f"{o}2:knot-value", f"{where}: a new object returns {xb!r} at the grid point ({k},{l}), the (unit-scaled) tabulated value is {cell[0]!r}"))
+            elif o == "G":
+                xb = f[2]
+                n = abs(ref_index(xs, a[1]) - ref_index(xs, a[0])) + 1
+                # both sums: n terms fl(fl(pf R) - fl(pf L)) resp. pf * fl(R - L), partial sums <= 2 n |pf| stem; plus the product pf * xb
+                slack = EPS * abs(pf) * stem * (2.0 * n * n + 10.0 * n) + 1e-300
+                if not (math.isnan(x) or math.isnan(xb)) and not abs(x - pf * xb) <= slack:
+                    out.append(("G:prefactor", f"{where}: integral {x!r} is not prefactor {pf!r} times the integral {xb!r} of a new object (difference {abs(x - pf * xb):.3g}, rounding allows {slack:.3g})"))
+            elif o in ("m", "M", "gm", "gM"):
+                bmin, bmax = f[2], f[3]
+                if not any(math.isnan(w) for w in (x, bmin, bmax)):
+                    exp = _scaled_extreme(pf, bmin, bmax, o in ("M", "gM"))
+                    if x != exp:
+                        out.append((f"{o}{sfx}:prefactor", f"{where}: {x!r} is not the extremum {exp!r} of prefactor {pf!r} times the values of a new object (minimum {bmin!r}, maximum {bmax!r})"))
+                    if o in ("gm", "gM") and (bmin != fmin or bmax != fmax):
+                        out.append((f"{o}{sfx}:table", f"{where}: a new object has global extrema {bmin!r}, {bmax!r}; the (unit-scaled) table has {fmin!r}, {fmax!r}"))
         if len(out) > 4: break
     return out
 
